@@ -70,7 +70,8 @@ struct E {
 // element type with a NON-trivial default constructor but TRIVIAL destructor/copy (e.g. struct { int v = 0; }, std::pair<int,int>): value-initialisation is required, lifetime is not tracked
 struct Q {
 	int v;
-	Q() : v(0) {}
+	static inline long ndefault = 0;   // default constructions (the type stays trivially copyable and trivially destructible: copies and destructions cannot be counted)
+	Q() : v(0) { ++ndefault; }
 	Q(int x) : v(x) {}  // NOLINT implicit
 	friend bool operator==(Q const& a, Q const& b) { return a.v == b.v; }
 	friend bool operator!=(Q const& a, Q const& b) { return a.v != b.v; }
